@@ -60,6 +60,8 @@ class Gen:
         k = self.r.random()
         if self.empty_text and self.r.random() < self.empty_text:
             return self.r.choice(["", " ", ":", "::", " : ", "a  b", ":-) x:y"])
+        if k < 0.07:
+            return base + self.r.choice(["  ", " ", "\t", " x ", "   "])  # blanks at the end belong to the text
         if k < 0.15:
             return base + " a:b :c"
         if k < 0.25:
